@@ -336,18 +336,15 @@ func (e *ExecutorV3) RunTx(context state.Interface, rawTx []byte, rewardPool *bi
 						return *resp
 					}
 				}
-				if symbolPrice == nil || symbolPrice.Sign() != 1 {
-					return Response{
-						Code: code.CommissionCoinNotSufficient,
-						Log:  fmt.Sprint("Not possible to pay commission"),
-						Info: EncodeError(code.NewCommissionCoinNotSufficient("", "")),
-					}
+				// the transaction has already been applied: a ticker fee of zero
+				// means there is nothing to burn, not that the delivery failed
+				if symbolPrice != nil && symbolPrice.Sign() == 1 {
+					rewardPool.Sub(rewardPool, symbolPrice)
+					deliverState.Accounts.AddBalance([20]byte{}, 0, symbolPrice)
+					response.Tags = append(response.Tags,
+						abcTypes.EventAttribute{Key: []byte("tx.burned_for_symbol"), Value: []byte(symbolPrice.String())},
+					)
 				}
-				rewardPool.Sub(rewardPool, symbolPrice)
-				deliverState.Accounts.AddBalance([20]byte{}, 0, symbolPrice)
-				response.Tags = append(response.Tags,
-					abcTypes.EventAttribute{Key: []byte("tx.burned_for_symbol"), Value: []byte(symbolPrice.String())},
-				)
 			}
 		}
 	}
